@@ -120,44 +120,70 @@ def showI2CObj (s : I2CObj) (called : Bool) : String :=
 
 def parseHex2? (a b : String) : Option (Mem × Mem) := do pure ((← ofHex? a), (← ofHex? b))
 
-def i2cHist : I2CObj → List String → List String → List String
-  | _, [], acc => acc.reverse
-  | s, st :: rest, acc =>
-    let r : Option (Except PyErr (I2CObj × String)) :=
+/-- steps: `u:<mem>` (memory replaced, then update), `U` (update against the current memory), `x:<m0>:<m1>`, `n:<addr>:<data>`,
+`s:<v>:<ch>:<sp>:<p>:<r>:<addr|none>` (the user assigns `elements`), `w` (write_data: the image goes into the memory), `d` -/
+def i2cHist : I2CObj → Mem → List String → List String → List String
+  | _, _, [], acc => acc.reverse
+  | s, mem, st :: rest, acc =>
+    let r : Option (Except PyErr (I2CObj × Mem × String)) :=
       match st.splitOn ":" with
-      | ["u", m] => (ofHex? m).map fun m => (i2cRunUpdate s m m).map fun (s', c) => (s', showI2CObj s' c)
-      | ["x", a, b] => (parseHex2? a b).map fun (m0, m1) => (i2cRunUpdate s m0 m1).map fun (s', c) => (s', showI2CObj s' c)
+      | ["u", m] => (ofHex? m).map fun m => (i2cRunUpdate s m m).map fun (s', c) => (s', m, showI2CObj s' c)
+      | ["U"] => some ((i2cRunUpdate s mem mem).map fun (s', c) => (s', mem, showI2CObj s' c))
+      | ["x", a, b] => (parseHex2? a b).map fun (m0, m1) => (i2cRunUpdate s m0 m1).map fun (s', c) => (s', m1, showI2CObj s' c)
       | ["n", a, d] => (do pure ((← a.toNat?), (← ofHex? d))).map fun (a, d) =>
-          (i2cStep s (.newData a d)).map fun ((s', outs) : I2CObj × List MemOut) => (s', showI2CObj s' (outs.contains .done) ++ s!"|R={outs.length}")
-      | ["w"] => some ((i2cStep s .writeData).map fun (s', outs) =>
-          (s', match outs with | [.write _ d] => "w=" ++ toHex d | _ => "w=?"))
-      | ["d"] => some ((i2cStep s .disconnect).map fun (s', _) => (s', showI2CObj s' false))
+          (i2cStep s (.newData a d)).map fun ((s', outs) : I2CObj × List MemOut) => (s', mem, showI2CObj s' (outs.contains .done) ++ s!"|R={outs.length}")
+      | ["s", v, ch, sp, p, q, a] =>
+        (do pure ((← v.toInt?), (← ch.toInt?), (← sp.toInt?), (← p.toNat?), (← q.toNat?), (← parseOptInt? a))).map fun (v, ch, sp, p, q, a) =>
+          .ok ({ s with fields := some (v, ch, sp, p, q), address := a }, mem, "s")
+      | ["w"] => some ((i2cStep s .writeData).map fun ((s', outs) : I2CObj × List MemOut) =>
+          match outs with
+          | [.write a d] => (s', mem.write a d, "w=" ++ toHex d)
+          | _ => (s', mem, "w=?"))
+      | ["d"] => some ((i2cStep s .disconnect).map fun (s', _) => (s', mem, showI2CObj s' false))
       | _ => none
     match r with
     | none => ["bad-op"]
     | some (.error e) => (s!"E:{e}" :: acc).reverse       -- an exception ends the modelled history
-    | some (.ok (s', out)) => i2cHist s' rest (out :: acc)
+    | some (.ok (s', mem', out)) => i2cHist s' mem' rest (out :: acc)
 
 def showOwObj (s : OWObj) (called : Bool) : String :=
   let o (x : Option Nat) : String := match x with | none => "-" | some n => toString n
   let es := if s.elements.isEmpty then "-" else ",".intercalate (s.elements.map fun (k, v) => s!"{k}={toHex v}")
   s!"p={o s.pins}|v={o s.vid}|i={o s.pid}|e={es}|V={b01 s.valid}|C={b01 called}|P={b01 s.pending}"
 
-def owHist : OWObj → List String → List String → List String
-  | _, [], acc => acc.reverse
-  | s, st :: rest, acc =>
-    let r : Option (Except PyErr (OWObj × String)) :=
+def parseOwBytesElems? (s : String) : Option (Dict (List UInt8)) :=
+  if s == "-" then some [] else
+  (s.splitOn ".").mapM fun w =>
+    match w.splitOn "=" with
+    | [k, v] => do pure ((← k.toNat?), (← ofHex? v))
+    | _ => none
+
+/-- `write_data` from the attributes of the object (pins/vid/pid None: struct.error) -/
+def owObjImage (s : OWObj) : Except PyErr (List UInt8) :=
+  match s.pins, s.vid, s.pid with
+  | some p, some v, some i => owImage ⟨p, v, i, s.elements.map fun (k, b) => (k, b.map UInt8.toNat)⟩
+  | _, _, _ => .error .structError
+
+def owHist : OWObj → Mem → List String → List String → List String
+  | _, _, [], acc => acc.reverse
+  | s, mem, st :: rest, acc =>
+    let r : Option (Except PyErr (OWObj × Mem × String)) :=
       match st.splitOn ":" with
-      | ["u", m] => (ofHex? m).map fun m => (owRunUpdate s m m).map fun (s', c) => (s', showOwObj s' c)
-      | ["x", a, b] => (parseHex2? a b).map fun (m0, m1) => (owRunUpdate s m0 m1).map fun (s', c) => (s', showOwObj s' c)
+      | ["u", m] => (ofHex? m).map fun m => (owRunUpdate s m m).map fun (s', c) => (s', m, showOwObj s' c)
+      | ["U"] => some ((owRunUpdate s mem mem).map fun (s', c) => (s', mem, showOwObj s' c))
+      | ["x", a, b] => (parseHex2? a b).map fun (m0, m1) => (owRunUpdate s m0 m1).map fun (s', c) => (s', m1, showOwObj s' c)
       | ["n", a, d] => (do pure ((← a.toNat?), (← ofHex? d))).map fun (a, d) =>
-          (owStep s (.newData a d)).map fun ((s', outs) : OWObj × List MemOut) => (s', showOwObj s' (outs.contains .done) ++ s!"|R={outs.length}")
-      | ["d"] => some ((owStep s .disconnect).map fun (s', _) => (s', showOwObj s' false))
+          (owStep s (.newData a d)).map fun ((s', outs) : OWObj × List MemOut) => (s', mem, showOwObj s' (outs.contains .done) ++ s!"|R={outs.length}")
+      | ["s", p, v, i, es] =>
+        (do pure ((← p.toNat?), (← v.toNat?), (← i.toNat?), (← parseOwBytesElems? es))).map fun (p, v, i, es) =>
+          .ok ({ s with pins := some p, vid := some v, pid := some i, elements := es }, mem, "s")
+      | ["w"] => some ((owObjImage s).map fun img => (s, mem.write 0 img, "w=" ++ toHex img))
+      | ["d"] => some ((owStep s .disconnect).map fun (s', _) => (s', mem, showOwObj s' false))
       | _ => none
     match r with
     | none => ["bad-op"]
     | some (.error e) => (s!"E:{e}" :: acc).reverse
-    | some (.ok (s', out)) => owHist s' rest (out :: acc)
+    | some (.ok (s', mem', out)) => owHist s' mem' rest (out :: acc)
 
 /-! histories on one LighthouseMemHelper: `lh_hist <size> <defs> <steps>`; defs `G0=<geos>|C0=<calibs>` name the caller's dict
 objects, steps (`;`-separated): `wg:<name>:<acks>` `wc:<name>:<acks>` `rg:<fails>` `rc:<fails>` `h:<size>` (another helper and memory) -/
@@ -437,8 +463,8 @@ def step (_ : Unit) (ws : List String) : Unit × String :=
       match size.toNat?, pg, pc with
       | some size, some g, some c => showExcept id (cfgWriter size g c)
       | _, _, _ => "bad-op"
-    | ["i2c_hist", steps] => "ok " ++ ";".intercalate (i2cHist I2CObj.fresh (steps.splitOn ",") [])
-    | ["ow_hist", steps] => "ok " ++ ";".intercalate (owHist OWObj.fresh (steps.splitOn ",") [])
+    | ["i2c_hist", steps] => "ok " ++ ";".intercalate (i2cHist I2CObj.fresh [] (steps.splitOn ",") [])
+    | ["ow_hist", steps] => "ok " ++ ";".intercalate (owHist OWObj.fresh [] (steps.splitOn ",") [])
     | ["yaml_canon", v] =>
       match parseY? v with
       | some y => "ok " ++ showY y.canon
